@@ -7,6 +7,7 @@ import (
 	"encoding/json"
 	"fmt"
 	"os"
+	"runtime/pprof"
 	"sync"
 	"sync/atomic"
 	"testing"
@@ -61,6 +62,9 @@ type childParams struct {
 	Hold      uint64 `json:"hold"`       // accepter is held at process-start(Hold) until Target is indexed (0 = no hold)
 	SyncBelow uint64 `json:"sync_below"` // heights < SyncBelow are processed completely before the next accept
 	Target    uint64 `json:"target"`     // consensus thread accepts heights 1..Target
+	// the consensus thread stops for good inside Accept(RaceAtQueued), right after
+	// queueing the block, and releases the held accepter from there (0 = off)
+	RaceAtQueued uint64 `json:"race_at_queued"`
 
 	// restart
 	CrashAt  string `json:"crash_at"`  // second-order crash: exit at this point during recovery ("" = none)
@@ -146,6 +150,10 @@ func childMain(paramFile string) int {
 	// watchdog: a child never outlives this, whatever happens
 	time.AfterFunc(childWatchdog, func() {
 		fmt.Fprintln(os.Stderr, "child: watchdog fired")
+		if f, err := os.Create(p.Progress + ".stacks"); err == nil {
+			_ = pprof.Lookup("goroutine").WriteTo(f, 1)
+			_ = f.Close()
+		}
 		os.Exit(exitChildHung)
 	})
 	subLog, err := openAppendLog(p.SubLog, true)
@@ -190,6 +198,10 @@ func childFollow(p childParams, rc *refChain, progress *appendLog, onAccepted fu
 		if !started.Load() {
 			return // genesis / initialisation work
 		}
+		if name == ptQueued && p.RaceAtQueued != 0 && h == p.RaceAtQueued {
+			close(indexed)
+			select {} // Accept(h) never returns; the accepter runs into the crash point meanwhile
+		}
 		if name == ptProcessStart && p.Hold != 0 && h == p.Hold {
 			<-indexed
 		}
@@ -230,6 +242,7 @@ func childFollow(p childParams, rc *refChain, progress *appendLog, onAccepted fu
 			fmt.Fprintf(os.Stderr, "follow: accept %d: %v\n", h, err)
 			return 3
 		}
+		_ = progress.line(fmt.Sprintf("accept-returned %d", h))
 		if h < p.SyncBelow {
 			<-notified[h]
 		}
